@@ -330,13 +330,39 @@ class Check:
             module, r["cfg"], r["states"], r["generated"], r["wall_s"], r["violations"]))
         return r
 
-    def scenario(self, name, profile="release", features=None, shards=None, module="Trace", maxpar=8):
+    def generate(self, module, cfg, num, depth, seed=None, timeout=900):
+        """Run TLC in -simulate mode; each finished behaviour is appended as one JSON line to the
+        returned file (the spec writes to IOEnv.GEN_OUT)."""
+        out = os.path.join(self.work, "gen-%s.ndjson" % os.path.basename(cfg))
+        if os.path.exists(out):
+            os.remove(out)
+        md = os.path.join(self.work, "gen-" + os.path.basename(cfg))
+        shutil.rmtree(md, ignore_errors=True)
+        os.makedirs(md, exist_ok=True)
+        cmd = tlc_cmd() + ["-workers", "1", "-simulate", "num=%d" % num, "-depth", str(depth), "-seed", str(seed or self.seed),
+                           "-config", os.path.join(SPEC, "mc", cfg), "-metadir", os.path.join(md, "states"), "-cleanup",
+                           "-noGenerateSpecTE", os.path.join(SPEC, "mc", module + ".tla")]
+        t0 = time.time()
+        rc, o = run(cmd, timeout=timeout, env={"GEN_OUT": out}, cwd=md)
+        if "Invariant" in o and "violated" in o:
+            raise ToolError("generator/acceptor disagreement in simulation:\n" + o[-3000:])
+        n = sum(1 for _ in open(out)) if os.path.exists(out) else 0
+        m = re.search(r'The number of states generated: (\d+)', o)
+        log("TLC -simulate %s/%s: %d behaviours written, %s states, %.1fs" % (module, cfg, n, m.group(1) if m else "?", time.time() - t0))
+        self.mc.append({"module": module, "cfg": cfg + " (-simulate num=%d depth=%d)" % (num, depth), "states": int(m.group(1)) if m else 0,
+                        "generated": int(m.group(1)) if m else 0, "wall_s": round(time.time() - t0, 1), "violations": [],
+                        "coverage": {}, "cmd": " ".join(cmd[5:]), "behaviours": n})
+        if n == 0:
+            raise ToolError("generator produced nothing:\n" + o[-2000:])
+        return out
+
+    def scenario(self, name, profile="release", features=None, shards=None, module="Trace", maxpar=8, extra=None):
         binp = self.bin(profile, features)
         outdir = os.path.join(self.work, "tr-" + name + ("-" + profile if profile != "release" else "") +
                               ("-" + "-".join(features) if features else ""))
         t0 = time.time()
         try:
-            s = drv(binp, name, self.seed, self.tier, outdir, shards or 1)
+            s = drv(binp, name, self.seed, self.tier, outdir, shards or 1, extra=extra)
         except HarnessCrash as hc:
             os.makedirs(os.path.join(ROOT, "replays"), exist_ok=True)
             rp = os.path.join(ROOT, "replays", "%s-crash-%s.json" % (self.prop, re.sub(r'[^A-Za-z0-9_.-]', '_', hc.case)[:60]))
@@ -353,7 +379,7 @@ class Check:
         want = max(1, min(maxpar, total // 6_000_000 + 1))
         if shards is None and want > 1:
             shutil.rmtree(outdir, ignore_errors=True)
-            s = drv(binp, name, self.seed, self.tier, outdir, want)
+            s = drv(binp, name, self.seed, self.tier, outdir, want, extra=extra)
         log("drv %s: %d cases, %d events, %.1f MB, %d shard(s), %.1fs" % (
             name, s["cases"], s["events"], sum(s["bytes"]) / 1e6, len(s["shards"]), time.time() - t0))
         t1 = time.time()
@@ -369,7 +395,7 @@ class Check:
             if not r.get("empty") and r["consumed"] != nlines:
                 raise ToolError("trace %s not fully consumed (%s of %d lines)" % (p, r["consumed"], nlines))
         entry = {"name": name, "profile": profile, "features": features or [], "summary": s, "results": res,
-                 "outdir": outdir, "module": module}
+                 "outdir": outdir, "module": module, "extra": extra}
         self.scn.append(entry)
         self.handle_fails(entry)
         return entry
@@ -390,7 +416,7 @@ class Check:
                 # confirm in isolation: re-execute the single case in a fresh process
                 binp = self.bin(entry["profile"], entry["features"])
                 cdir = os.path.join(self.work, "confirm-%s" % hashlib.md5(f["case"].encode()).hexdigest()[:10])
-                s = drv(binp, entry["name"], self.seed, self.tier, cdir, 1, only=f["case"])
+                s = drv(binp, entry["name"], self.seed, self.tier, cdir, 1, only=f["case"], extra=entry.get("extra"))
                 res = tlc_trace_many(s["shards"], cdir, module=entry["module"])
                 rr = list(res.values())[0]
                 confirmed = [x for x in rr["fails"] if x["case"] == f["case"]]
